@@ -18,10 +18,61 @@ warnings.filterwarnings('ignore')
 #   | ['relu', src] | ['relu6', src] | ['pool', src, 'avg'|'max'] | ['flat', src]
 #   | ['lin', src, cout, bias] | ['add', a, b]
 #   | ['reuse', src, of]   the conv module of instruction `of` invoked again on `src` (layer reuse)
+# 'conv' / 'dw' may carry a trailing dict of Conv2d hyper-parameter variants (C02):
+#   {'pm': padding_mode, 'pad': int | 'same' | 'valid', 'dil': dilation}; absent = zeros, k // 2, 1.
+# In the Lean model padding / stride / dilation are part of the abstract per-layer map (`Sem.kernel`);
+# only the output size they produce enters the request line.
 # dim = 2 (Conv2d grammar of C02) or 1 (Conv1d family, C05 spec keys only)
 
 
-def gen_desc(rng, first=None, couts=(2, 3, 4), dim=2, allow_bn=True, min_layers=1, max_layers=3, dw_k=(1, 3)):
+def _opts(ins):
+    return ins[-1] if isinstance(ins[-1], dict) else {}
+
+
+def conv_out(sp_in, k, s, opts):
+    """output size of a conv along one spatial axis"""
+    d = opts.get('dil', 1)
+    pad = opts.get('pad', k // 2)
+    if pad == 'same':
+        return sp_in
+    if pad == 'valid':
+        pad = 0
+    return (sp_in + 2 * pad - d * (k - 1) - 1) // s + 1
+
+
+def draw_conv_opts(rng, k, s, sp_in, keep):
+    """Random Conv2d hyper-parameter variant: dilation, padding (default / other integer / 'same' /
+    'valid') and padding_mode in {zeros, reflect, replicate, circular}, valid for the input size
+    (reflect needs pad < size, circular pad <= size; the output keeps >= 1 position; `keep`: the
+    spatial size must be preserved, residual branch)."""
+    d = rng.choice([1, 1, 2]) if (k == 3 and sp_in >= 5) else 1
+    half = d * (k - 1) // 2
+    cands = [half]
+    if s == 1:
+        cands.append('same')
+    if not keep:
+        cands += [p_ for p_ in (0, 1, 2) if p_ != half]
+        if sp_in - d * (k - 1) >= 1:
+            cands.append('valid')
+    pad = rng.choice(cands)
+    if not keep and conv_out(sp_in, k, s, {'pad': pad, 'dil': d}) < 1:
+        pad = half
+    amount = half if pad == 'same' else (0 if pad == 'valid' else pad)
+    pm = rng.choice(['zeros', 'zeros', 'reflect', 'replicate', 'circular', 'reflect', 'replicate', 'circular'])
+    if (pm == 'reflect' and amount >= sp_in) or (pm == 'circular' and amount > sp_in):
+        pm = 'replicate'
+    o = {}
+    if pm != 'zeros':
+        o['pm'] = pm
+    if pad != k // 2:
+        o['pad'] = pad
+    if d != 1:
+        o['dil'] = d
+    return o
+
+
+def gen_desc(rng, first=None, couts=(2, 3, 4), dim=2, allow_bn=True, min_layers=1, max_layers=3, dw_k=(1, 3),
+             conv_variants=False):
     """Random program of the grammar.  `first` forces the shape of the network's head:
     'dw' (depthwise on the network input), 'addin' (residual add with the network input)."""
     C0 = rng.choice([2, 3]) if couts != (2, 4, 8) else rng.choice([2, 4])
@@ -49,8 +100,10 @@ def gen_desc(rng, first=None, couts=(2, 3, 4), dim=2, allow_bn=True, min_layers=
         k = rng.choice(list(dw_k)) if dw else rng.choice([1, 3])
         s = 1 if keep else rng.choice([1, 1, 2])
         bias = int(rng.random() < 0.7)
-        so = (sp[src] - 1) // s + 1
-        n = add(['dw', src, k, s, bias] if dw else ['conv', src, cout, k, s, bias], cout, so)
+        o = draw_conv_opts(rng, k, s, sp[src], keep) if (conv_variants and dim == 2) else {}
+        so = conv_out(sp[src], k, s, o)
+        ins = ['dw', src, k, s, bias] if dw else ['conv', src, cout, k, s, bias]
+        n = add(ins + ([o] if o else []), cout, so)
         if allow_bn and dim == 2 and rng.random() < 0.45:
             n = add(['bn', n], cout, so)
         return act(n)
@@ -139,12 +192,12 @@ def _shapes(desc):
         if op == 'input':
             ch.append(desc['C0']); sp.append(desc['T'])
         elif op == 'conv':
-            ch.append(ins[2]); sp.append((sp[ins[1]] - 1) // ins[4] + 1)
+            ch.append(ins[2]); sp.append(conv_out(sp[ins[1]], ins[3], ins[4], _opts(ins)))
         elif op == 'dw':
-            ch.append(ch[ins[1]]); sp.append((sp[ins[1]] - 1) // ins[3] + 1)
+            ch.append(ch[ins[1]]); sp.append(conv_out(sp[ins[1]], ins[2], ins[3], _opts(ins)))
         elif op == 'reuse':
             of = desc['prog'][ins[2]]
-            ch.append(of[2]); sp.append((sp[ins[1]] - 1) // of[4] + 1)
+            ch.append(of[2]); sp.append(conv_out(sp[ins[1]], of[3], of[4], _opts(of)))
         elif op in ('bn', 'relu', 'relu6', 'add'):
             ch.append(ch[ins[1]]); sp.append(sp[ins[1]])
         elif op == 'pool':
@@ -174,12 +227,16 @@ def build_net(desc):
             for i, ins in enumerate(prog):
                 op = ins[0]
                 if op == 'conv':
-                    _, src, cout, k, s, bias = ins
-                    setattr(self, 'n%d' % i, Conv(ch[src], cout, k, stride=s, padding=k // 2, bias=bool(bias)))
+                    _, src, cout, k, s, bias = ins[:6]
+                    o = _opts(ins)
+                    setattr(self, 'n%d' % i, Conv(ch[src], cout, k, stride=s, padding=o.get('pad', k // 2), bias=bool(bias),
+                                                  dilation=o.get('dil', 1), padding_mode=o.get('pm', 'zeros')))
                 elif op == 'dw':
-                    _, src, k, s, bias = ins
-                    setattr(self, 'n%d' % i, Conv(ch[src], ch[src], k, stride=s, padding=k // 2,
-                                                  groups=ch[src], bias=bool(bias)))
+                    _, src, k, s, bias = ins[:5]
+                    o = _opts(ins)
+                    setattr(self, 'n%d' % i, Conv(ch[src], ch[src], k, stride=s, padding=o.get('pad', k // 2),
+                                                  groups=ch[src], bias=bool(bias), dilation=o.get('dil', 1),
+                                                  padding_mode=o.get('pm', 'zeros')))
                 elif op == 'bn':
                     is_lin = sp[ins[1]] == 1 and prog[ins[1]][0] == 'lin'
                     setattr(self, 'n%d' % i, nn.BatchNorm1d(ch[i]) if (is_lin or dim == 1) else nn.BatchNorm2d(ch[i]))
@@ -250,9 +307,9 @@ def model_nodes(desc):
             slots.append(('I', mi[i], i))
         elif op in ('conv', 'dw'):
             if op == 'conv':
-                _, src, cout, k, s, bias = ins
+                _, src, cout, k, s, bias = ins[:6]
             else:
-                _, src, k, s, bias = ins
+                _, src, k, s, bias = ins[:5]
                 cout = ch[src]
             b = 1 if (bias or i in has_bn) else 0
             o0 = sp[i]
@@ -261,7 +318,7 @@ def model_nodes(desc):
             toks.append('%s:%d:%d:%d:%d:%d:%d:%d:%d:%d' % (op, mi[src], lt, ch[src], cout, k, k1, o0, o1, b))
             slots.append(('L', mi[i], i))
         elif op == 'reuse':
-            _, src0, cout, k, s, bias = prog[ins[2]]
+            _, src0, cout, k, s, bias = prog[ins[2]][:6]
             b = 1 if (bias or ins[2] in has_bn) else 0
             o0 = sp[i]
             o1 = sp[i] if dim == 2 else 1
